@@ -212,8 +212,10 @@ def pick_mismatches(out, cap):
             g = "B"
         else:
             continue
-        m = re.search(r"(?::: |bad-op )op (\S+) ", l)
-        groups[g].setdefault(m.group(1) if m else "", {})[l] = None
+        # one bucket per (declaration, operation kind): every kind of operation of every affected declaration is
+        # represented before the cap is reached (a flood of `with` mismatches must not hide the `hist` ones)
+        m = re.search(r"(?::: |bad-op )op (\S+) (\S+)", l)
+        groups[g].setdefault((m.group(1), m.group(2)) if m else ("", ""), {})[l] = None
     res = []
     for g, share in (("S", cap // 2), ("M", cap // 3), ("B", cap - cap // 2 - cap // 3)):
         per = [list(v) for v in groups[g].values()]
